@@ -3,11 +3,17 @@
    functions errRetryableOnNewConn (pool, telegram) are regenerated from the source into
    Gen/RpcClass.v on every run and used by the model (retryable, retryable_tg). *)
 From Coq Require Import ZArith List Bool.
-From TD Require Import Gen.RpcClass Model.Rpc Proof.Rpc Proof.RpcClass.
+From TD Require Import Gen.RpcClass Model.Rpc Proof.Rpc Proof.RpcEnv Proof.RpcClass.
 Import ListNotations.
 Open Scope Z_scope.
 
-(* Progress: in every reachable state in which the engine has been force-closed, every
+(* Progress is POSSIBILITY (exists es): some own step always decreases the measure; a scheduler
+   could in principle prefer the timer branch, but every such detour consumes one XTimerFire, an
+   environment event, so without further environment events every maximal run of own steps is
+   finite and ends in the return (fairness of the Go scheduler is assumed, not modelled). Not
+   modelled: the caller of ForceClose itself (Close waits on the WaitGroup for every Do; a Do
+   blocked inside the injected drop handler strands it) -- covered by the harness watchdog only.
+   Progress: in every reachable state in which the engine has been force-closed, every
    pending call (entered, not yet returned) can reach its return within 56 steps none of
    which is an environment event: only its own steps and the completion of a handler
    invocation that had already claimed it. (The premise about the ack map is the
@@ -22,12 +28,20 @@ Print Assumptions C26_progress_after_close.
 
 (* Classification. snap26 = "ack delivered, result/error handler completed, or caller
    cancelled" at the moment the close branch of the retry loop polled. The retryable
-   engine-closed error is returned only with a clear snapshot; the non-retryable close
-   error only if one of those (or a Canceled transmission) did occur. *)
+   engine-closed error is returned only with a clear snapshot AND only if no result / error
+   handler ever claimed the call (Do claimed it itself on return: selfclaim): the Output was
+   never written and no outcome was received -- resending cannot duplicate an answered request.
+   The non-retryable close error is returned only if the ack was delivered, a handler
+   completed or the caller cancelled (deliv). (A send reports context.Canceled only when the
+   retry context is cancelled -- guard of the o = 2 transmissions, environment assumption
+   validated by the replay.) With C25_quiet_after_env_ack: once the environment delivered the
+   ack to a waiting request, CClosedUnacked is disabled, so that request cannot fail retryably. *)
 Theorem C26_class : forall mx s c, 1 <= mx -> reach mx s ->
   viol26 (calls s c) = false /\
-  (pc (calls s c) = PReturned RClosedRetryable -> snap26 (calls s c) = false) /\
-  (pc (calls s c) = PReturned RClosedAcked -> deliv (calls s c) = true \/ sendcanc (calls s c) = true).
+  (pc (calls s c) = PReturned RClosedRetryable ->
+     snap26 (calls s c) = false /\ selfclaim (calls s c) = true /\ writer (calls s c) = None /\
+     nwrites (calls s c) = 0 /\ done (calls s c) = false) /\
+  (pc (calls s c) = PReturned RClosedAcked -> deliv (calls s c) = true).
 Proof. exact c26_class. Qed.
 Print Assumptions C26_class.
 
@@ -77,15 +91,17 @@ Example C26_old_witness_blocked :
     /\ pc (calls s 0) = PReturned RNil.
 Proof. vm_compute. split; [reflexivity | eexists; split; reflexivity]. Qed.
 
-(* Residual window (documented, not a theorem about safety): a handler invocation that has
-   claimed the call but not yet finished when the close branch polls is invisible to the
-   poll; Do then waits for it (claim-or-await) and returns the retryable error although the
-   Output has been written. *)
-Definition C26_residual_trace : list ev :=
+(* Regression witness of the defect repaired by /repo commit 459a12526 (formerly filed here as
+   "residual window"): a handler has claimed the call but not finished when the close branch
+   polls; Do waits for it (Output written) -- and used to return the retryable error, so the
+   answered request was executed twice. Returning the retryable class is not enabled any more;
+   Do returns the handler's outcome. *)
+Definition C26_claimed_prefix : list ev :=
   [CEntered 0 5 1 7; CRegistered 0; CAckWait 0; CSend 0 5 1 7 0; CSelect 0; NLookup 0 5 0 42; NEnter 0 0; NClaimed 0 0;
    XForceCancel; CSelClosed 0; CClosedUnacked 0; CRetried 0; CRetryErr 0; CUnregistered 0; CAwait 0;
-   NDecode 0 0 true 42; NDoneClosed 0 0; CSettled 0; CReturn 0 4 0 true true].
-Example C26_residual_window :
-  exists s, run (init 3) C26_residual_trace = Some s /\ pc (calls s 0) = PReturned RClosedRetryable /\
-            out (calls s 0) = 42 /\ nwrites (calls s 0) = 1.
-Proof. vm_compute. eexists. repeat split. Qed.
+   NDecode 0 0 true 42; NDoneClosed 0 0; CSettled 0].
+Example C26_old_residual_blocked :
+  run (init 3) (C26_claimed_prefix ++ [CReturn 0 4 0 true true]) = None /\
+  exists s, run (init 3) (C26_claimed_prefix ++ [CReturn 0 0 0 false false]) = Some s /\
+            pc (calls s 0) = PReturned RNil /\ out (calls s 0) = 42.
+Proof. vm_compute. split; [reflexivity | eexists; repeat split]. Qed.
